@@ -105,4 +105,48 @@ PROPS = {
         "trusted_base": ["model: lean/CliUtils/Model/{Event,Print}.lean, grammar: lean/CliUtils/Spec/EventGrammar.lean, predicate: lean/CliUtils/Spec/PrintSpec.lean (hand-written)",
                          "harness/cmd/corr/dom_c20.go (generator from the grammar, canonicalisation of output lines)"],
     },
+    "C17": {
+        "level_text": ("Machine-checked Lean 4 theorems over a model of the polling engine, ResourceStatusEqual, AggregateStatus, the "
+                       "collector and the pod-controller rule: for every list of statuses and every desired status the aggregate follows the "
+                       "stated rule and is order- and multiplicity-independent; ResourceStatusEqual is an equivalence relation on the "
+                       "status-relevant fields; for every sequence of per-poll snapshots the emitted stream is, poll by poll, exactly one update "
+                       "per distinct resource whose fresh status differs from the last update emitted for it (all of them on the first poll); "
+                       "for every script (cancellation or errors at any Sync / ReadStatus call) at most one error event occurs and only as the "
+                       "last event, none if only context errors occur; the collector's latest observation is the last update per resource. "
+                       "The model is tied to the code by driving the REAL PollerEngine.Poll with a scripted ClusterReader/StatusReader/"
+                       "RESTMapper, and the real AggregateStatus (exhaustively over short lists), ResourceStatusEqual, collector and "
+                       "podControllerStatusReader.readStatus on the same inputs. Unit tests sample 3-5 hand-written cases; they cannot quantify "
+                       "over all snapshot sequences, multisets and cancellation points."),
+        "level_note": ("Trusted: Lean kernel (+propext, Quot.sound, Classical.choice), the hand-written model (Model/Poll.lean), the Go harness "
+                       "and driver. The ticker is replaced by 'one poll per scripted snapshot' (the real ticker only decides WHEN the next poll "
+                       "happens); goroutine scheduling of the engine is exercised by the harness but not modelled. The proof is about the "
+                       "model; the code is covered as far as the correspondence run explores (reported in evidence)."),
+        "technique": "Lean 4 proof (induction over snapshot scripts / status lists, nested-inductive equivalence) + differential correspondence against the real Go code",
+        "domains": ["aggregate", "rsequal", "poll", "collector", "podctl", "readstatus"],
+        "rule": ("aggregate: EVERY list of the 6 statuses of length <= 4 (quick) / <= 5 (thorough) x every desired status through the real "
+                 "AggregateStatus, plus random lists of length 6..25; rsequal: generated pairs of ResourceStatus trees (clone / one-field "
+                 "mutation anywhere in the tree incl. nil-resource vs generation 0, error present/absent/text, generated list length and order "
+                 "/ unrelated) through the real ResourceStatusEqual in both directions; poll: the real PollerEngine.Poll over scripts of 0-6 polls "
+                 "for 0-4 identifiers (repeated ids, not-found, read errors, generated resources; Sync/ReadStatus returning context or fatal "
+                 "errors or cancelling the context at any point; validation / reader-factory errors), incl. every sequence of length <= 4 over "
+                 "three variants of one resource x 8 endings; collector: random event streams through the real ResourceStatusCollector; podctl: "
+                 "the real podControllerStatusReader.readStatus with scripted pod statuses / compute results / errors; readstatus: the real generic "
+                 "status reader (mapper lookup, Get, status function) over every combination of outcomes and error kinds. Non-trivial: aggregate "
+                 "lists of length >= 2, poll scripts with >= 2 polls and >= 1 id, collector streams with >= 2 events; distinct = distinct canonical input JSON."),
+        "exhaustive_quick": False,
+        "explanation": ("Theorems (CliUtils.Props.C17): aggregate_rule, aggregate_perm_invariant, aggregate_set_invariant, rsEqual_equivalence, "
+                        "rsEqual_compares, poll_first_emits_all(_run), poll_once_events, poll_emits_iff_changed(_per_resource), "
+                        "poll_emits_iff_differs_from_previous_snapshot, poll_prev_is_last_emitted, poll_cancel_no_error, "
+                        "poll_at_most_one_error_and_last, poll_fatal_(read_)exactly_one_error_then_close, poll_setup_error_exactly_one_error, "
+                        "collector_latest_is_last, pod_controller_failed_rule, pod_controller_errors. Tie: every domain compares the model's "
+                        "output with the real code's on the same input; the property predicate (aggregation rule; emitted-iff-changed computed "
+                        "from the script and the observed stream alone with a JSON-level comparison; no error event on cancellation; exactly one, "
+                        "final error event on a fatal error; channel closed) is evaluated on the implementation's output."),
+        "assumptions": ["status readers return a status carrying the identifier they were asked for (true of every reader in statusreaders/); "
+                        "scripts violating this are still compared model-vs-code but are outside the property predicate",
+                        "a nil Resource counts as generation 0 (getGeneration), as in the code",
+                        "event sequences never depend on wall-clock time: the scripted reader advances one snapshot per Sync and cancels from inside the engine goroutine"],
+        "trusted_base": ["model: lean/CliUtils/Model/Poll.lean (hand-written); spec notions: lean/CliUtils/Spec/C17.lean",
+                         "harness/overlay/zz_verif_c17_statusreaders.go (build-time overlay exposing podControllerStatusReader.readStatus; /repo untouched)"],
+    },
 }
